@@ -13,7 +13,9 @@ cp "$S/demo.rs" "crates/$crate/tests/seed_demo.rs"
 if grep -q "autotests = false" crates/$crate/Cargo.toml; then printf '\n[[test]]\nname = "seed_demo"\n' >> crates/$crate/Cargo.toml; fi
 feat=""; [ "$crate" = toml_edit ] && feat="--features serde"
 # a demonstration may need a non-default feature configuration: taken from its header comment
-hf=$(grep -oE -- "--features[ =][a-z_,]+" "$S/demo.rs" | head -1); [ -n "$hf" ] && feat="$hf"
+hl=$(grep -E -- "cargo test.*--features" "$S/demo.rs" | head -1)
+hf=$(echo "$hl" | grep -oE -- "--features[ =][a-z_,]+" | head -1); [ -n "$hf" ] && feat="$hf"
+echo "$hl" | grep -q -- "--no-default-features" && feat="--no-default-features $feat"
 cargo test --offline -q -p $pkg $feat --test seed_demo > /tmp/confirm_clean.log 2>&1; clean_rc=$?
 git apply "$S/patch.diff" || { echo "REJECTED: patch does not apply"; exit 1; }
 cargo test --offline -q -p $pkg $feat --test seed_demo > /tmp/confirm_mut.log 2>&1; mut_rc=$?
@@ -22,4 +24,4 @@ git apply -R "$S/patch.diff"; git apply "$S/patch.diff"   # keep only the librar
 base=$(cargo nextest run --workspace --no-fail-fast --tool-config-file pb:/w/lib/nextest.toml --profile pb --test-threads 16 --offline 2>&1 | grep -E "Summary" )
 git checkout -q -- . ; git clean -fdq -e target
 echo "demo on clean tree rc=$clean_rc ; demo with change rc=$mut_rc ; baseline with change: $base"
-if [ $clean_rc -eq 0 ] && [ $mut_rc -ne 0 ] && echo "$base" | grep -q "2144 passed" ; then echo "CONFIRMED $S"; exit 0; else echo "REJECTED $S"; tail -5 /tmp/confirm_clean.log /tmp/confirm_mut.log; exit 1; fi
+if [ $clean_rc -eq 0 ] && [ $mut_rc -ne 0 ] && echo "$base" | grep -q "2144 passed" ; then echo "CONFIRMED $S"; exit 0; else echo "REJECTED $S"; tail -n 5 /tmp/confirm_clean.log; tail -n 5 /tmp/confirm_mut.log; exit 1; fi
